@@ -242,6 +242,10 @@ func init() {
 		mutant{Name: "array-deref-looks-through-pointers-to-slices", Prop: "C12", File: "interp/typecheck.go", Old: "\tif typ.cat == valueT && typ.TypeOf().Kind() == reflect.Ptr {\n\t\tt := typ.TypeOf()\n\t\tif t.Elem().Kind() == reflect.Array {\n\t\t\treturn valueTOf(t.Elem())\n\t\t}\n\t\treturn typ\n\t}\n\n\tif typ.cat == ptrT && typ.val.cat == arrayT {\n\t\treturn typ.val\n\t}\n\treturn typ\n", New: "\tif isPtr(typ) && isArray(typ.elem()) {\n\t\treturn typ.elem()\n\t}\n\treturn typ\n", Rule: "R12.8", Key: "arrayDeref/only-pointers-to-arrays"},
 		mutant{Name: "cap-accepted-on-maps", Prop: "C12", File: "interp/typecheck.go", Old: "\t\tcase reflect.Array, reflect.Slice, reflect.Chan:\n\t\t\tok = true\n\t\tcase reflect.String, reflect.Map:\n", New: "\t\tcase reflect.Array, reflect.Slice, reflect.Chan, reflect.Map:\n\t\t\tok = true\n\t\tcase reflect.String:\n", Rule: "R12.8", Key: "builtin/len-cap/argument-kinds"},
 		mutant{Name: "benign-array-deref-cases-swapped", Prop: "C12", File: "interp/typecheck.go", Old: "\tif typ.cat == ptrT && typ.val.cat == arrayT {\n\t\treturn typ.val\n\t}\n\treturn typ\n", New: "\tif typ.cat != ptrT || typ.val.cat != arrayT {\n\t\treturn typ\n\t}\n\treturn typ.val\n", Benign: true},
+		mutant{Name: "wrapper-selected-on-declared-methods-only", Prop: "C05", File: "interp/use.go", Old: "\tlm := n.typ.methods()\n", New: "",
+			More: [][2]string{{"\t\t\tif _, ok := lm[rt.Field(i).Name[1:]]; !ok {\n", "\t\t\tif n.typ.getMethod(rt.Field(i).Name[1:]) == nil {\n"}}, Rule: "R05.5", Key: "getWrapper/selection-on-method-set"},
+		mutant{Name: "relative-import-normalises-a-copy-of-the-root", Prop: "C16", File: "interp/src.go", Old: "\t\tif rPath == mainID {\n\t\t\trPath = \".\"\n\t\t}\n\t\tdir = filepath.Join(filepath.Dir(interp.name), rPath, importPath)\n", New: "\t\tbase := rPath\n\t\tif base == mainID {\n\t\t\tbase = \".\"\n\t\t}\n\t\tdir = filepath.Join(filepath.Dir(interp.name), base, importPath)\n", Rule: "R16.1", Key: "importSrc/relative-branch/root-handed-on"},
+		mutant{Name: "name-rule-splits-the-whole-name", Prop: "C17", File: "interp/build.go", Old: "\ta := strings.Split(p[i+1:], \"_\")\n\tlast := len(a) - 1\n\tif last-1 >= 0 {\n", New: "\ta := strings.Split(p, \"_\")\n\tlast := len(a) - 1\n\tif last-1 >= 1 {\n", Rule: "R17.7", Key: "skipFile/prefix-is-not-a-constraint"},
 		// ---- C18
 		mutant{Name: "var-bound-by-value-in-generator", Prop: "C18", File: "extract/extract.go", Old: "\t\t\tval[name] = Val{pname, true}", New: "\t\t\tval[name] = Val{pname, false}", Rule: "R18.2", Key: "genContent/addr-only-for-vars"},
 		mutant{Name: "template-forwards-wrong-field", Prop: "C18", File: "extract/extract.go", Old: "\t\t\t{{- $m.Ret}} W.W{{$m.Name}}{{$m.Arg -}}", New: "\t\t\t{{- $m.Ret}} W.{{$m.Name}}{{$m.Arg -}}", Rule: "R18.3", Key: "model/wrapper-method"},
